@@ -183,6 +183,20 @@ Proof.
       rewrite app_length in Hn. lia.
 Qed.
 
+(* there are at most as many raw lines as bytes *)
+Lemma raw_lines_count : forall n l ls rem, (length l <= n)%nat ->
+  raw_lines l = (ls, rem) -> (length ls <= length l)%nat.
+Proof.
+  induction n as [|n IH]; intros l ls rem Hn H.
+  - destruct l; [|cbn in Hn; lia]. cbn in H. inversion H. cbn. lia.
+  - destruct ls as [|x ls]; [cbn; lia|].
+    apply raw_lines_cons_inv in H. destruct H as [y [H1 H2]].
+    pose proof (split_nl_concat _ _ _ H1) as E.
+    pose proof (split_nl_nonempty _ _ _ H1) as Hx. subst l.
+    rewrite app_length in *. cbn [length].
+    assert (length ls <= length y)%nat by (apply (IH y ls rem); [lia|exact H2]). lia.
+Qed.
+
 (* ---- the header loop over any chunking = the loop over the flat view ---- *)
 Section MachineProofs.
   Variables (S R : Type).
